@@ -127,7 +127,8 @@ func inInnerReprOfGet() bool {
 // inside the hashing of its virtual nodes.  At HEAD that is inside the write-locked insertion: every
 // other call blocks; a tree that hashes outside the lock lets them through.
 type hashGate struct {
-	inGet   bool // park the first evaluation made by Get (the key's hash) instead of AddWithReplicas'
+	inGet   bool  // park an evaluation made by Get (the key's hash, the inner hash) instead of AddWithReplicas'
+	skip    int32 // matching evaluations to let through first (1: park Get's SECOND evaluation, the inner hash)
 	armed   int32
 	entered chan struct{}
 	release chan struct{}
@@ -144,7 +145,8 @@ func gatedHash(data []byte) uint64 {
 			inRemove, inAdd := callSite()
 			hit = inAdd && !inRemove
 		}
-		if hit && atomic.CompareAndSwapInt32(&g.armed, 1, 0) {
+		if hit && atomic.AddInt32(&g.skip, -1) < 0 && atomic.CompareAndSwapInt32(&g.armed, 1, 0) {
+			// parked BEFORE the bytes are hashed: whatever happens to the memory behind data meanwhile is hashed
 			close(g.entered)
 			<-g.release
 		}
@@ -303,7 +305,100 @@ func runConc(c Case) (out Out) {
 		gob := []int{}
 		var what string
 		var ok bool
-		if lst, isl := st.([]any); isl && lst[0].(string) == "h" {
+		if lst, isl := st.([]any); isl && lst[0].(string) == "gg" {
+			// ["gg", probe, [probes...], nth]: Get(probe) is held inside the nth evaluation of the hash function it
+			// makes (1: the key's hash, 2: the inner hash of a shared slot), the other lookups are started one after
+			// the other and run to completion meanwhile (readers share the lock), then the held one is released.
+			// No membership call is involved.  gobs: [probe, answer, parked, 0, p1, a1, p2, a2, ...]
+			p, nth := num(lst[1]), num(lst[3])
+			if p < 0 || p >= len(c.Probes) || nth < 1 || nth > 2 {
+				out.Err = "bad concurrent-lookups step"
+				return
+			}
+			hg := &hashGate{inGet: true, armed: 1, skip: int32(nth - 1), entered: make(chan struct{}), release: make(chan struct{})}
+			curGate.Store(hg)
+			lookup := func(q int) chan int {
+				ch := make(chan int, 1)
+				key := mk(c.Probes[q])
+				go func() {
+					r := -1
+					defer func() {
+						if e := recover(); e != nil {
+							r = -2
+						}
+						ch <- r
+					}()
+					v, found := h.Get(key)
+					if !found {
+						r = -1
+					} else if g, isg := v.(*gnode); isg {
+						r = g.idx
+					} else {
+						r = -3
+					}
+				}()
+				return ch
+			}
+			hd := lookup(p)
+			parked, ans := 0, 0
+			select {
+			case <-hg.entered:
+				parked = 1
+			case ans = <-hd:
+			case <-time.After(concWait):
+				out.Err = "a lookup neither reached the hash function nor returned"
+				return
+			}
+			atomic.StoreInt32(&hg.armed, 0)
+			released := parked == 0
+			release := func() {
+				if !released {
+					released = true
+					close(hg.release)
+				}
+			}
+			gob = []int{p, 0, parked, 0}
+			for _, x := range lst[2].([]any) {
+				q := num(x)
+				if q < 0 || q >= len(c.Probes) {
+					release()
+					out.Err = "bad probe in a concurrent-lookups step"
+					return
+				}
+				ch := lookup(q)
+				deadline := time.Now().Add(concWait)
+				a, fin := 0, false
+				for !fin {
+					select {
+					case a = <-ch:
+						fin = true
+					default:
+						if !released && writerBlocked() {
+							release() // a tree whose lookups exclude each other: nothing overlaps
+						}
+						if time.Now().After(deadline) {
+							release()
+							out.Err = "a lookup beside a held lookup neither finished nor blocked"
+							return
+						}
+						time.Sleep(50 * time.Microsecond)
+					}
+				}
+				gob = append(gob, q, a)
+			}
+			release()
+			if parked == 1 {
+				select {
+				case ans = <-hd:
+				case <-time.After(concWait):
+					out.Err = "a released lookup did not return"
+					return
+				}
+			}
+			gob[1] = ans
+			curGate.Store(nil)
+			what, ok = "gg", true
+		} else if lst, isl := st.([]any); isl && lst[0].(string) == "h" {
 			// ["h", thread, [threads...]]: the thread's next call (add-type, at a call boundary) is held inside
 			// the hashing of its virtual nodes; meanwhile the next calls of the listed threads are started one
 			// after the other, each until it finished or blocks on the ring's lock; as soon as one blocks the
